@@ -97,14 +97,15 @@ theorem repBlock_cons2 (R : Nat) (last : Bool) (ll : Option Nat) (r r' : List Ex
     repBlock R last ll (r :: r' :: rs) = repPayloads none 0 (r.take R) ++ repBlock R last ll (r' :: rs) := rfl
 
 /-- All later frames of a repeat block. -/
-theorem rep_outer {d : Array Nat} {nbF f L p0 : Nat} {ll : Option Nat} {T : Int} {pre : List Ext} {R : Nat}
-    {last : Bool} {rest : List Nat} (hf : f + 1 < nbF) (hpre : ∀ a ∈ pre, ValidExt nbF a) (hsrc : At d p0 (srcBytes pre)) :
+theorem rep_outer {d : Array Nat} {nbF f L p0 k : Nat} {ll : Option Nat} {T : Int} {pre : List Ext} {R : Nat}
+    {last : Bool} {rest : List Nat} (hf : f + 1 < nbF) (hpre : ∀ a ∈ pre, ValidExt nbF a)
+    (hones : At d p0 (List.replicate k 1)) (hsrc : At d (p0 + k) (srcBytes pre)) :
     ∀ (later : List (List Ext)) (g p : Nat) (it : Iter),
     g + later.length = nbF → 0 < g →
-    RSt d nbF f g L p0 (srcBytes pre).length p0 (srcBytes pre).length p ll T it →
+    RSt d nbF f g L p0 (k + (srcBytes pre).length) p0 (k + (srcBytes pre).length) p ll T it →
     (∀ (i : Nat) (r : List Ext), later[i]? = some r →
       MatchL (r.take R) pre ∧ ∀ x ∈ r.take R, ValidExt nbF x ∧ x.frame.toNat = g + i) →
-    ZOk L (nbF - 1) nbF ll (if last then lastLongPos pre else none) 0 p0 pre →
+    ZOk L (nbF - 1) nbF ll (if last then lastLongPos pre else none) 0 (p0 + k) pre →
     (∀ r, later.getLast? = some r → TOk T (if last then lastLongPos pre else none) rest.length 0 (r.take R)) →
     At d p (repBlock R last (lastLongPos pre) later ++ rest) →
     p + (repBlock R last (lastLongPos pre) later).length + rest.length = d.size →
@@ -128,19 +129,21 @@ theorem rep_outer {d : Array Nat} {nbF f L p0 : Nat} {ll : Option Nat} {T : Int}
       have hgn : g + 1 = nbF := by simpa using hgl
       have hgn' : nbF - 1 = g := by omega
       simp only [repBlock] at hat hend ⊢
-      obtain ⟨it1, hs1, hR1⟩ := rep_inner (rest := rest) hg0 hglt pre (r.take R) 0 p0 p it hR hpre
+      obtain ⟨it0, hs0, hR0⟩ := rep_skip_ones hg0 hglt (by omega) k p0 (srcBytes pre).length it hR hones
+      obtain ⟨it1, hs1, hR1⟩ := rep_inner (rest := rest) hg0 hglt pre (r.take R) 0 (p0 + k) p it0 hR0 hpre
         (fun x hx => by have := hv1 x hx; exact ⟨this.1, by simpa using this.2⟩) hm1 (hgn' ▸ hZ) (hTk r rfl) hsrc hat hend
       obtain ⟨it2, hs2, hR2⟩ := rep_switch hR1 hg0 hglt (by omega)
       rw [hgn] at hR2
       obtain ⟨it3, hs3, h3⟩ := rep_end hR2 hf (by omega)
       refine ⟨it3, ?_, h3⟩
-      have := (hs1.trans hs2).trans hs3
+      have := ((hs0.trans hs1).trans hs2).trans hs3
       simpa using this
     | cons r' rs' =>
       have hg1 : g + 1 < nbF := by simp at hgl; omega
       rw [repBlock_cons2] at hat hend ⊢
       simp only [List.append_assoc, List.length_append] at hat hend ⊢
-      obtain ⟨it1, hs1, hR1⟩ := rep_inner (rest := repBlock R last (lastLongPos pre) (r' :: rs') ++ rest) hg0 hglt pre (r.take R) 0 p0 p it hR hpre
+      obtain ⟨it0, hs0, hR0⟩ := rep_skip_ones hg0 hglt (by omega) k p0 (srcBytes pre).length it hR hones
+      obtain ⟨it1, hs1, hR1⟩ := rep_inner (rest := repBlock R last (lastLongPos pre) (r' :: rs') ++ rest) hg0 hglt pre (r.take R) 0 (p0 + k) p it0 hR0 hpre
         (fun x hx => by have := hv1 x hx; exact ⟨this.1, by simpa using this.2⟩) hm1 (ZOk_none hg1 _ _ _) (TOk_none _ _) hsrc hat
         (by simp only [List.length_append]; omega)
       obtain ⟨it2, hs2, hR2⟩ := rep_switch hR1 hg0 hglt (by omega)
@@ -152,7 +155,7 @@ theorem rep_outer {d : Array Nat} {nbF f L p0 : Nat} {ll : Option Nat} {T : Int}
           exact ⟨h2.1, by rw [h2.2]; omega⟩)
         hZ (fun r0 hr0 => hTk r0 (by simpa [List.getLast?_cons_cons] using hr0)) (hat.append).2 (by omega)
       refine ⟨it3, ?_, ?_, ?_⟩
-      · have := (hs1.trans hs2).trans hs3
+      · have := ((hs0.trans hs1).trans hs2).trans hs3
         simpa using this
       · have e : p + ((repPayloads none 0 (List.take R r)).length + (repBlock R last (lastLongPos pre) (r' :: rs')).length) =
             p + (repPayloads none 0 (List.take R r)).length + (repBlock R last (lastLongPos pre) (r' :: rs')).length := by omega
